@@ -2,7 +2,8 @@
 
 
 def run(ctx):
-    ctx.lean_obligations(["SV.Props.C07"], drivers=["svdriver_c07"])
+    ctx.regen_go2lean()
+    ctx.lean_obligations(["SV.Props.C07", "SV.Props.C07gen2"], drivers=["svdriver_c07"])
     quick = ctx.tier == "quick"
     b = ctx.go_test_binary("fs/layer", "h_layer")
     if b:
